@@ -62,6 +62,8 @@ pub fn elem_type(phase: &str) -> Option<T> {
         "ALSZ_OT_setup" => T::Vec(Box::new(T::U8)),
         "KOS_OT_x_t0_t1" => T::Tup(vec![block(), block(), block()]),
         "KOS_OT_corr" => block(),
+        "KOS_OT_toss_comm" => T::U8,
+        "KOS_OT_toss_open" => T::U8,
         "fabitn" => T::Tup(vec![T::Bool, T::U128]),
         "fashare comm" => T::Tup(vec![arr32(), arr32(), arr32()]),
         "fashare ver" => T::Vec(Box::new(T::U8)),
